@@ -418,8 +418,10 @@ def reference(world):
         # a *used* import (the imported node is the OID parent) of a module that never got a symbol table makes code
         # generation of the importer fail as well
         out_edges = [b for a, b in world.get('edges', []) if a == base]
+        used_import = ([b for b in out_edges if b != base] or [None])[-1] if world.get('used') else None
+        # (module_text() hangs the module's own node below the node imported LAST; the other imports are only listed)
         cascade = c in (base, base + 'REAL') and any(
-            b not in parsed and ((world.get('used') and b != base) or (b == base and c != base)) for b in out_edges)
+            b not in parsed and (b == used_import or (b == base and c != base)) for b in out_edges)
         # (a module filed under another name that imports "itself" by the file name imports a module that does not exist,
         # and the imported symbol collides with its own)
         if cascade or c in world.get('generr', []) or (world.get('text', {}).get(base) in ('badimport', 'badrange') and c == base):
